@@ -5,6 +5,9 @@
 set -u
 export GOFLAGS=-mod=mod GOPROXY=off GOSUMDB=off GOTOOLCHAIN=local
 SID=$1; OUT=$2; shift 2
+# the checks are run from CHECKDIR (default: the checkout this script lives in, so that under `vp run` it is the
+# committed snapshot and edits to the live /verif/harness cannot leak into a running batch)
+CHECKDIR=${CHECKDIR:-$(cd "$(dirname "$(readlink -f "$0")")/.." && pwd)}
 DEST=/verif/seeded/$SID
 W=/var/tmp/verif-scratch/seedconfirm-$SID
 mkdir -p /var/tmp/verif-scratch "$DEST"
@@ -34,12 +37,12 @@ git -C /repo apply "$DEST/patch.diff" || exit 2
 : > "$DEST/checks.log"
 for P in "$@"; do
   for T in quick thorough; do
-    OUTP=$(cd /verif && ./check "$P" --tier $T 2>&1); RC=$?
+    OUTP=$(cd "$CHECKDIR" && ./check "$P" --tier $T 2>&1); RC=$?
     echo "--- $P $T rc=$RC" >>"$DEST/checks.log"; echo "$OUTP" | tail -15 >>"$DEST/checks.log"
     V=$(echo "$OUTP" | grep -m1 '^VIOLATION')
     echo "check $P $T rc=$RC ${V}"
     if [ $RC = 1 ] && [ -n "$V" ]; then
-      R=$(echo "$V" | sed -n 's/.*replay=\([^ ]*\).*/\1/p'); [ -f "$R" ] && cp "$R" "$DEST/replay-$P-$T.json"
+      R=$(echo "$V" | sed -n 's/.*replay=\([^ ]*\).*/\1/p'); [ -f "$CHECKDIR/$R" ] && cp "$CHECKDIR/$R" "$DEST/replay-$P-$T.json"
       echo "$V" | grep -q no-failing-input-found || break
     fi
   done
